@@ -1174,6 +1174,10 @@ func (d *Data) ServeHTTP(uuid dvid.UUID, ctx *datastore.VersionedCtx, w http.Res
 			server.BadRequest(w, r, "Label 0 is protected background value and cannot be used as sparse volume.\n")
 			return
 		}
+		if len(parts) < 7 {
+			server.BadRequest(w, r, "%q must be followed by label/size/offset", parts[3])
+			return
+		}
 		sizeStr, offsetStr := parts[5], parts[6]
 
 		subvol, err := dvid.NewSubvolumeFromStrings(offsetStr, sizeStr, "_")
